@@ -770,6 +770,8 @@ fn verif_c07_window() {
         (2, 5, vec![("a", 3, 0), ("b", 4, 2), ("c", 5, 1), ("d", 1, 0)]),
         (4, 4, vec![]),
         (0, 5, vec![("k1", 5, 0), ("k2", 4, 0), ("k3", 2, 0), ("k4", 1, 0)]),
+        // one value larger than every small budget, in the middle of the version order
+        (0, 3, vec![("a", 1, 0), ("big", 2, 0), ("c", 3, 0)]),
     ];
     let digest_cfgs: [Option<(u64, u64)>; 5] = [None, Some((0, 0)), Some((0, 2)), Some((0, 5)), Some((3, 1))];
     let mut combos = 0u64;
@@ -782,8 +784,8 @@ fn verif_c07_window() {
                 let (g, m, kv) = &member_cfgs[*p];
                 let mut ns = copy_of(*g, *m, kv);
                 ns.chitchat_id = id(i as u16 + 1);
-                for (_, v) in ns.key_values.iter_mut() {
-                    v.value = format!("{:y<20}", v.value);
+                for (k, v) in ns.key_values.iter_mut() {
+                    v.value = if k == "big" { format!("{:z<400}", v.value) } else { format!("{:y<20}", v.value) };
                 }
                 cs.node_states.insert(ns.chitchat_id.clone(), ns);
             }
